@@ -10,6 +10,7 @@ CONSTANTS
   SplitWrite = FALSE
   NoMaxCheck = FALSE
   NoMinCheck = FALSE
+  ResumeFresh = FALSE
   NoReadFull = TRUE
   WithHist = FALSE
   Export = FALSE
